@@ -34,11 +34,18 @@ type conf struct {
 	queue   int    // client queue length (0: default)
 	stagger int    // ms between the callers' start times
 	objMax  int32  // ObjQueueMax (0: default): calls beyond it are rejected at once
+	// every caller has its own ServantProxy object for the same remote object
+	ownProxies bool
+	// peer "late-then-ok": the first request is answered lateBy ms after its deadline (may be negative or 0),
+	// every later request at once; each caller issues a second call `gap` ms after its first one returned
+	lateBy int
+	gap    int
 }
 
 func scenario(c conf) *vm.Scenario {
 	sc := &vm.Scenario{Name: c.name, MaxSteps: 500000}
 	sc.Main = func() {
+		nreq = 0
 		opts := tars.VerifClientOpts{ReadTimeout: 500 * time.Millisecond, CheckStatusInterval: 60000,
 			DialTimeout: time.Duration(c.dialMs) * time.Millisecond, WriteTimeout: time.Duration(c.writeMs) * time.Millisecond, QueueLen: c.queue, ObjQueueMax: c.objMax}
 		if c.src == "config" {
@@ -63,6 +70,13 @@ func scenario(c conf) *vm.Scenario {
 			vm.GoNamed("acceptor", func() { acceptor(c, ln, start) })
 		}
 		sp := tars.NewServantProxy(comm, obj)
+		sps := make([]*tars.ServantProxy, c.callers)
+		for i := range sps {
+			sps[i] = sp
+			if c.ownProxies && i > 0 {
+				sps[i] = tars.NewServantProxy(comm, obj)
+			}
+		}
 		done := make(chan struct{}, c.callers)
 		for i := 0; i < c.callers; i++ {
 			i := i
@@ -70,29 +84,48 @@ func scenario(c conf) *vm.Scenario {
 				if c.stagger > 0 && i > 0 {
 					vm.Sleep(int64(i*c.stagger) * 1e6)
 				}
-				t0 := vm.Now()
-				ctx := context.Background()
-				var cancel context.CancelFunc
-				switch c.src {
-				case "percall":
-					ctx = current.ContextWithClientCurrent(ctx)
-					current.SetClientTimeout(ctx, c.timeout)
-				case "ctx":
-					ctx, cancel = vctxWithTimeout(ctx, time.Duration(c.timeout)*time.Millisecond)
+				rounds := 1
+				if c.peer == "late-then-ok" {
+					rounds = 2
 				}
-				var resp requestf.ResponsePacket
-				err := sp.TarsInvoke(ctx, 0, "echo", []byte{0xA0 + byte(i), byte(i)}, nil, nil, &resp)
-				if cancel != nil {
-					cancel()
-				}
-				el := (vm.Now() - t0) / 1e6
-				switch {
-				case err == nil:
-					vm.Log("caller %d ok after=%dms", i, el)
-				case strings.Contains(err.Error(), "request timeout"):
-					vm.Log("caller %d timeout after=%dms", i, el)
-				default:
-					vm.Log("caller %d error after=%dms: %s", i, el, short(err.Error()))
+				for round := 0; round < rounds; round++ {
+					if round > 0 && c.gap > 0 {
+						vm.Sleep(int64(c.gap) * 1e6)
+					}
+					t0 := vm.Now()
+					ctx := context.Background()
+					var cancel context.CancelFunc
+					switch c.src {
+					case "percall":
+						ctx = current.ContextWithClientCurrent(ctx)
+						current.SetClientTimeout(ctx, c.timeout)
+					case "ctx":
+						ctx, cancel = vctxWithTimeout(ctx, time.Duration(c.timeout)*time.Millisecond)
+					}
+					var resp requestf.ResponsePacket
+					payload := []byte{0xA0 + byte(i), byte(i), byte(round)}
+					err := sps[i].TarsInvoke(ctx, 0, "echo", payload, nil, nil, &resp)
+					if cancel != nil {
+						cancel()
+					}
+					el := (vm.Now() - t0) / 1e6
+					who := i + 10*round
+					switch {
+					case err == nil:
+						same := len(resp.SBuffer) == len(payload)
+						for k := range payload {
+							same = same && int8(payload[k]) == resp.SBuffer[k]
+						}
+						if !same {
+							vm.Log("caller %d wrongreply after=%dms: sent %x got %x", who, el, payload, resp.SBuffer)
+						} else {
+							vm.Log("caller %d ok after=%dms", who, el)
+						}
+					case strings.Contains(err.Error(), "request timeout"):
+						vm.Log("caller %d timeout after=%dms", who, el)
+					default:
+						vm.Log("caller %d error after=%dms: %s", who, el, short(err.Error()))
+					}
 				}
 				vm.Send(done, struct{}{})
 			})
@@ -102,8 +135,13 @@ func scenario(c conf) *vm.Scenario {
 		}
 		// quiescence: longer than read timeout, sender poll and late replies
 		vm.Sleep(int64(3 * time.Second))
-		st := tars.VerifState(sp)
-		vm.Log("state queueLen=%d resp=%d invokeNum=%d", st.QueueLen, st.RespEntries, st.InvokeNum)
+		for k, p := range sps {
+			if k > 0 && !c.ownProxies {
+				break
+			}
+			st := tars.VerifState(p)
+			vm.Log("state queueLen=%d resp=%d invokeNum=%d", st.QueueLen, st.RespEntries, st.InvokeNum)
+		}
 		_ = vtime.Now
 	}
 	sc.Check = func(r *vm.Result) string { return check(c, r) }
@@ -136,6 +174,8 @@ func acceptor(c conf, ln vnet.Listener, start int64) {
 	}
 }
 
+var nreq int // requests seen by the scripted peer in this execution
+
 func serveConn(c conf, conn *vnet.TCPConn, start int64) {
 	var buf []byte
 	tmp := make([]byte, 4096)
@@ -155,9 +195,22 @@ func serveConn(c conf, conn *vnet.TCPConn, start int64) {
 			}
 			vm.Log("server got id=%d timeout=%d", q.ID, q.Timeout)
 			ok := (&tnet.Response{Version: q.Version, ID: q.ID, Buffer: q.Buffer, Status: map[string]string{}}).Encode()
+			nreq++
 			switch c.peer {
 			case "ok":
 				conn.Write(ok)
+			case "late-then-ok":
+				if nreq > 1 {
+					conn.Write(ok)
+					break
+				}
+				q := q
+				at := vm.Now() + int64(c.timeout+c.lateBy)*1e6
+				vm.GoNamed("late-reply", func() {
+					vm.Sleep(at - vm.Now())
+					conn.Write(ok)
+					vm.Log("server late reply id=%d", q.ID)
+				})
 			case "silent":
 			case "late":
 				q := q
@@ -216,6 +269,22 @@ func check(c conf, r *vm.Result) string {
 				}
 				msgs = append(msgs, fmt.Sprintf("call-returned-after-deadline:%s:%s\ncaller %d returned after %dms, allowed %d+%d (%s)", c.peer, over, i, el, allowed, slack, o))
 			}
+			if kind == "wrongreply" {
+				msgs = append(msgs, "call-returned-the-reply-of-another-call:"+c.peer+"\n"+o)
+			}
+			if c.peer == "late-then-ok" {
+				// the first call may succeed only if its reply was not late; every other call must succeed
+				if i == 0 && kind == "ok" && c.lateBy > 0 {
+					msgs = append(msgs, "call-succeeded-with-a-reply-sent-after-its-deadline")
+				}
+				if i == 0 && kind != "ok" && c.lateBy < 0 {
+					msgs = append(msgs, "call-failed-although-server-answered\n"+o)
+				}
+				if i != 0 && kind != "ok" && kind != "wrongreply" {
+					msgs = append(msgs, "late-reply-to-one-call-made-another-call-fail\n"+o)
+				}
+				continue
+			}
 			if kind == "ok" && c.peer != "ok" {
 				msgs = append(msgs, "call-succeeded-without-a-valid-reply:"+c.peer)
 			}
@@ -226,6 +295,9 @@ func check(c conf, r *vm.Result) string {
 		if strings.HasPrefix(o, "state ") && o != "state queueLen=0 resp=0 invokeNum=0" {
 			msgs = append(msgs, "resources-left-after-calls-returned:"+c.peer+"\n"+o)
 		}
+	}
+	if c.peer == "late-then-ok" {
+		returned /= 2
 	}
 	if returned != c.callers {
 		msgs = append(msgs, "caller-did-not-return")
@@ -285,6 +357,33 @@ func main() {
 	for _, p := range []string{"silent", "ok", "late"} {
 		add(conf{name: "objmax", peer: p, src: "config", callers: 5, timeout: 400, dialMs: 300, writeMs: 1000, objMax: 2}, 0, false)
 		add(conf{name: "objmax", peer: p, src: "config", callers: 4, timeout: 400, dialMs: 300, writeMs: 1000, objMax: 1, stagger: 10}, 1, false)
+	}
+	// a reply around the deadline of its call, then further calls: they get their own replies
+	for _, by := range []int{-1, 0, 1, 50} {
+		for _, gap := range []int{0, 50} {
+			for _, src := range []string{"config", "ctx"} {
+				add(conf{name: fmt.Sprintf("late-by=%d gap=%d", by, gap), peer: "late-then-ok", src: src, callers: 1, timeout: 400, dialMs: 300, writeMs: 1000, lateBy: by, gap: gap}, 1, false)
+			}
+		}
+		add(conf{name: fmt.Sprintf("late-by=%d gap=0", by), peer: "late-then-ok", src: "ctx", callers: 2, timeout: 400, dialMs: 300, writeMs: 1000, lateBy: by, stagger: 10}, 1, false)
+	}
+	for _, src := range []string{"config", "ctx"} {
+		// deeper, with all deviations inside the 20 ms around the deadline (the calls start at t=0)
+		for _, gap := range []int{0, 50} {
+			deep := 2
+			if run.Thorough() {
+				deep = 3
+			}
+			add(conf{name: fmt.Sprintf("late-by=0 gap=%d deviations-within-390..410ms", gap), peer: "late-then-ok", src: src, callers: 1, timeout: 400, dialMs: 300, writeMs: 1000, gap: gap}, deep, true)
+			for k := 1; k <= 3; k++ {
+				cases[len(cases)-k].Opt.DevFrom, cases[len(cases)-k].Opt.DevTo = 390e6, 410e6
+			}
+		}
+	}
+	// several proxy objects for one remote object, overlapping calls: each proxy's counter returns to zero
+	for _, p := range []string{"silent", "ok", "late", "close-after-request"} {
+		add(conf{name: "own-proxies", peer: p, src: "config", callers: 2, timeout: 400, dialMs: 300, writeMs: 1000, ownProxies: true, stagger: 30}, 1, false)
+		add(conf{name: "own-proxies", peer: p, src: "ctx", callers: 3, timeout: 400, dialMs: 300, writeMs: 1000, ownProxies: true, stagger: 30}, 0, false)
 	}
 	// writer blocked by a zero window, tiny queue: the enqueue timeout rules
 	add(conf{peer: "blocked-writer", src: "config", callers: 4, timeout: 400, dialMs: 300, writeMs: 1000, queue: 1}, 0, false)
